@@ -16,15 +16,17 @@ RULE = ('states = distinct canonical structural dumps reachable from the empty c
         'read probes (get/[]/in/has_key/len/bool/iteration for every key and gap of the '
         'universe in every state)')
 TRUSTED = ['CPython 3.12', 'persistent 6.8', 'vt harness (explorer, reference models, canonical dump)']
-ASSUMPTIONS = ['key universes of <= 8 keys per configuration; values from a 2-element alphabet',
-               'node sizes from {2,3,4}; default node sizes are not explored exhaustively']
+ASSUMPTIONS = ['key universes of <= 13 keys per configuration; values from a 2-element alphabet',
+               'node sizes from {2,3,4}, plus 2/8, 8/2, 6/6 for wide nodes; default node sizes are not explored exhaustively']
 
 
 def bounds(tier):
     return ('quick: cover families %s deep (trees N<=6 @2/2, N=5 @2/3,3/2; leaves N=5; value '
             'space N=3 with 2 values), all 22 families shallow (N=4); plus thinning spaces '
             '(scripted build of 9 keys asc/desc/middle-out @2/2, then BFS over all deletions); '
-            'thorough: all 22 deep, N=7, thinning N=11'
+            'wide nodes: thinning spaces @2/8 (10 keys), 8/2 (11), 6/6 (11) and BFS N=7 @2/8, N=9 @8/2 for '
+            'OO LQ fs (C) / OO IF (Py), leaves of 9 keys for the cover families; '
+            'thorough: all 22 deep, N=7, thinning N=11, wide nodes for all families'
             % ' '.join(F.COVER))
 
 
@@ -43,6 +45,8 @@ def configs(tier):
                 for var in F.variants(fam) + (['unhash'] if fam[0] == 'O' else []):
                     out.append((fam, kind, impl, None, 5 if fam in deep else 4, var, 'shape', w))
                 out.append((fam, kind, impl, None, 3, 'centred', 'value', w))
+                if kind == 'Bucket':    # nearly equal values (vt.fam.values2)
+                    out.append((fam, kind, impl, None, 3, 'centred', 'value2', w))
             for kind in F.TREE_KINDS:
                 if fam in deep:
                     if tier == 'quick':
@@ -68,11 +72,15 @@ def configs(tier):
                     out.append((fam, kind, impl, (2, 2), 4, 'extreme', 'shape', w))
                     if fam[0] == 'O':
                         out.append((fam, kind, impl, (2, 2), 3, 'unhash', 'shape', w))
-                if kind == 'BTree' or True:
-                    out.append((fam, kind, impl, (2, 2), 3, 'centred', 'value', w))
+                out.append((fam, kind, impl, (2, 2), 3, 'centred', 'value', w))
+                if kind == 'BTree':
+                    out.append((fam, kind, impl, (2, 2), 3, 'centred', 'value2', w))
     return out
 
 
+# n is chosen so that two thirds of it is past the family's default leaf size (II 120, OO 30, fs 500, LQ 120)
+BIG = {'quick': (('II', 200), ('OO', 100)),
+       'thorough': (('II', 400), ('OO', 200), ('LQ', 200), ('fs', 800), ('IF', 200))}
 THIN_N = {'quick': 9, 'thorough': 11}
 
 
@@ -92,7 +100,20 @@ def thin_configs(tier):
 
 def jobs(tier):
     js = []
-    for fam, kind, impl, sizes, n, var, mode, w in configs(tier) + thin_configs(tier):
+    from .. import space as S
+    wide = [(fam, kind, impl, sizes, n, var, 'thin:' + thin if thin else 'shape', w)
+            for fam, kind, impl, sizes, n, var, thin, w in S.wide_configs(tier)]
+    # wide leaves without a tree around them: 9 keys in one Bucket / Set
+    for fam in (F.COVER if tier == 'quick' else F.FAMILIES):
+        for impl in F.IMPLS:
+            for kind in ('Bucket', 'Set'):
+                wide.append((fam, kind, impl, None, 9, 'centred', 'shape', 2 if impl == 'c' else 6))
+    # big states at the DEFAULT node sizes (sizes=None): depth-1 expansion, see vt.space.explorer(big=)
+    for fam, n in BIG[tier]:
+        for impl in F.IMPLS:
+            for kind, order in (('BTree', 'asc'), ('TreeSet', 'desc'), ('BTree', 'mid')):
+                wide.append((fam, kind, impl, None, n, 'centred', 'big:' + order, 6 if impl == 'c' else 30))
+    for fam, kind, impl, sizes, n, var, mode, w in configs(tier) + thin_configs(tier) + wide:
         js.append({'fn': 'job', 'weight': w,
                    'group': '%s/%s' % (impl, 'tree' if kind in F.TREE_KINDS else 'leaf'),
                    'args': dict(fam=fam, kind=kind, impl=impl, sizes=sizes, n=n,
@@ -255,17 +276,18 @@ def probes_monitor(grid):
 def job(fam, kind, impl, sizes, n, variant, mode):
     from .. import ops as O
     from ..explore import Explorer
-    if mode.startswith('thin:'):
+    if mode.startswith('thin:') or mode.startswith('big:'):
         from .. import space as S
         ex = S.explorer(fam, kind, impl, sizes, n, variant, 'C01', check_ops=True,
-                        thin=mode[5:])
+                        thin=mode[5:] if mode[0] == 't' else None,
+                        big=mode[4:] if mode[0] == 'b' else None)
         ex.base_case['mode'] = mode
         grid = ex.grid
     else:
         ctx = O.Ctx(fam, kind, impl)
         keys, grid = F.universe(fam, n, variant)
-        vals = F.values(fam)
-        alpha = alphabet(ctx, keys, grid, vals, mode, n)
+        vals = F.values2(fam) if mode == 'value2' else F.values(fam)
+        alpha = alphabet(ctx, keys, grid, vals, 'value' if mode == 'value2' else mode, n)
         if sizes:
             F.set_sizes(fam, *sizes)
         ex = Explorer(ctx, alpha, sizes=sizes, prop='C01',
